@@ -23,7 +23,9 @@ echo "suite_with_change: $SUITE; demo_with_change_exit=$DEMO_WITH; demo_without_
 # 4. the check against /repo with the patch applied
 cd /verif
 git -C /repo apply $OUT/patch.diff || { echo "patch does not apply to /repo"; exit 3; }
+cp evidence/$PROP.json /tmp/evidence_$PROP.bak 2>/dev/null
 ./check $PROP > /tmp/check_$NAME.log 2>&1; CHECK=$?
+cp evidence/$PROP.json $OUT/evidence_with_change.json 2>/dev/null; mv /tmp/evidence_$PROP.bak evidence/$PROP.json 2>/dev/null   # the committed evidence stays that of the unchanged tree
 git -C /repo checkout -- .
 grep -E "VIOLATION|KNOWN-FINDING|^$PROP:" /tmp/check_$NAME.log
 REPLAY=$(grep -o "replay=[^ ]*" /tmp/check_$NAME.log | head -1 | cut -d= -f2)
